@@ -77,7 +77,36 @@ def strOfBytes (j : Json) : Str := (jarr j).map fun b => Char.ofNat (jnat b)
 def verdictName : Verdict → String
   | .served => "served" | .badUsername => "bad-username" | .badPassword => "bad-password" | .rejected => "rpc:Internal"
 
+/-- a history of calls on one connection: every call is judged on its own by `call` / `specAuth` -/
+def handleC35History (j : Json) : Json :=
+  let cfg : Cred := { user := strOfBytes (jget j "su"), pass := strOfBytes (jget j "sp") }
+  let calls := jarr (jget j "calls")
+  let impl := jarr (jget (jget j "impl") "calls")
+  let creds : List (Option Cred × List (Str × Str)) := calls.map fun c =>
+    (if jbool (jget c "cred") then some { user := strOfBytes (jget c "cu"), pass := strOfBytes (jget c "cp") } else none, [])
+  let model := Eru.Rpc.Auth.serve cfg creds
+  let rec go (i : Nat) (cs : List Json) (cr : List (Option Cred × List (Str × Str))) (ms : List Verdict) (is : List Json)
+      (agree : Bool) (viol : List String) : Bool × List String :=
+    match cs, cr, ms, is with
+    | c :: cs', (cred, extra) :: cr', m :: ms', r :: is' =>
+      let cls := jstr (jget r "class")
+      let served := cls == "served"
+      let dom := inDomain (wire cred extra)
+      let ok := !dom || (cls == verdictName m && jbool (jget r "handler_ran") == served)
+      let v := (specAuth cfg cred extra served).map (fun s => s!"C35:{s}:{jstr (jget c "kind")}:call{i}") ++
+               (if jbool (jget r "handler_ran") == served then [] else [s!"C35:handler-ran-iff-served:call{i}"])
+      go (i + 1) cs' cr' ms' is' (agree && ok) (viol ++ v)
+    | [], _, _, [] => (agree, viol)
+    | _, _, _, _ => (false, viol)
+  let (agree, viol) := go 0 calls creds model impl (!jhas (jget j "impl") "crash") []
+  let anyGood := model.contains .served
+  let anyBadAfterGood := (model.dropWhile (· != .served)).any (· != .served)
+  verdict (jget j "id") agree (Json.arr (model.map (fun m => Json.str (verdictName m))).toArray) viol
+    ("history" ++ (if anyBadAfterGood then "-bad-after-good" else if anyGood then "-good" else "-allbad"))
+    (!inDomain (wire (some cfg) []))
+
 def handleC35 (j : Json) : Json :=
+  if jhas j "calls" then handleC35History j else
   let cfg : Cred := { user := strOfBytes (jget j "su"), pass := strOfBytes (jget j "sp") }
   let cred : Option Cred := if jbool (jget j "cred") then some { user := strOfBytes (jget j "cu"), pass := strOfBytes (jget j "cp") } else none
   let extra : List (Str × Str) := (jarr (jget j "extra")).map fun p =>
